@@ -475,7 +475,17 @@ def check(P, R):
                      f'raises TypeError, the error escapes _cast and the client gets the last-resort HTML page instead of JSON',
                      why='when JSON is requested the error body is valid JSON', key_extra='traceback-text')
     R.require(n_tb >= 1, f'{n_tb} HTTPError(..., traceback) construction sites found (2 on the pinned tree)')
-    cts = [st for st in walk_shallow(de.node) if isinstance(st, ast.Assign) and 'Content-Type' in src(st.targets[0]) and is_const(st.value, 'application/json')]
+    def _is_json_ct(st_):
+        v_ = st_.value
+        if is_const(v_, 'application/json'):
+            return True
+        ns_ = gd.node_of_stmt(st_)
+        vx_ = T.expand(de, v_, ns_[0]) if ns_ else v_
+        try:
+            return is_const(T.module_value(de, vx_), 'application/json')
+        except Exception:
+            return False
+    cts = [st for st in walk_shallow(de.node) if isinstance(st, ast.Assign) and 'Content-Type' in src(st.targets[0]) and _is_json_ct(st)]
     ok = bool(cts) and gd.edge_dominates(jt[0], jlab, gd.node_of_stmt(cts[0])[0])
     R.ob('C20.e', de, cts[0] if cts else de.node, ok, text='Content-Type: application/json on the same branch', detail='' if ok else 'the JSON body is not labelled application/json')
     ij = P.func('ombott.request_pkg.props_mixin:PropsMixin.is_json_requested')
